@@ -59,6 +59,7 @@ type FuncSpec struct {
 	Requires   []*Clause
 	Ensures    []*Clause
 	Asserts    []*PointAssert // assert after "<statement text>" [label] expr
+	SafetyProp string         // "safety Cnn": unlabelled obligations of this function belong to that property's sweep only
 	Assumes    []*Clause      // "assumes": unchecked environment assumptions, assumed at entry and at every call
 	RetSites   []*Clause      // "returns": like ensures, but evaluated at each return statement with the locals visible there
 	Loops      map[int]*LoopSpec
@@ -103,7 +104,7 @@ var pureRe = regexp.MustCompile(`^pure\s+([A-Za-z_][A-Za-z0-9_]*)\s*\(([^)]*)\)\
 
 var clauseKeywords = map[string]bool{"requires": true, "ensures": true, "loop": true, "mode": true, "inline": true,
 	"modular": true, "modifies": true, "decreases": true, "let": true, "end": true, "func": true, "returns": true, "stackbound": true, "assert": true, "pure": true,
-	"type": true, "props": true, "bounded": true, "trusted": true, "opaque": true, "assumes": true, "purefn": true, "package": true, "skip": true}
+	"type": true, "props": true, "bounded": true, "trusted": true, "opaque": true, "assumes": true, "safety": true, "purefn": true, "package": true, "skip": true}
 
 // extractSpecLines pulls the //@ lines out of a Go file (or takes every
 // non-comment line of a .spec file).
@@ -267,6 +268,8 @@ func (sp *Specs) parseFile(path string, data []byte, pkgPath string) error {
 				cur.Modular = true
 			case "opaque":
 				cur.Opaque = true
+			case "safety":
+				cur.SafetyProp = strings.TrimSpace(rest)
 			case "trusted":
 				cur.Trusted = true
 			case "purefn":
